@@ -221,12 +221,16 @@ def run_case(part, case, ctx):
 # worker: one shard of one part
 # --------------------------------------------------------------------------------------------
 
+SHRINK_SECONDS = {"quick": 12.0, "thorough": 120.0}   # shrinking only: a verdict never depends on it
+
+
 class _ShrinkState:
     def __init__(self):
         self.target = None
         self.best = None       # (len, text)
         self.detail = ""
         self.calls = 0
+        self.t0 = None
 
 
 def _derive(seed, shard, attempt=0):
@@ -241,7 +245,7 @@ def _hyp_run(part, ctx, tier, seed, shard, n_examples):
     failures = []
     budget = SHRINK_CALL_BUDGET[tier]
     strategy = part.strategy(tier)
-    for attempt in range(MAX_TAGS):
+    for attempt in range(MAX_TAGS if tier == "thorough" else 3):
         st_ = _ShrinkState()
         ctx.counting = True
 
@@ -260,7 +264,9 @@ def _hyp_run(part, ctx, tier, seed, shard, n_examples):
                     st_.best = key
                     st_.detail = v.detail
                 st_.calls += 1
-                if st_.calls > budget:
+                if st_.t0 is None:
+                    st_.t0 = time.time()
+                if st_.calls > budget or time.time() - st_.t0 > SHRINK_SECONDS[tier]:
                     raise AbortShrink()
                 raise
 
